@@ -38,8 +38,13 @@ func init() {
 					l = append(l, '\n')
 				}
 			}
-			for j := r.Intn(6); j > 0; j-- {
-				l = append(l, 'z')
+			// the last line: short, or wrapped over two or three rows (the secondary prompt goes on its first row)
+			last := r.Intn(6)
+			if r.Intn(2) == 0 {
+				last = r.Intn(2*w + 2)
+			}
+			for j := last; j > 0; j-- {
+				l = append(l, rune('p'+r.Intn(10)))
 			}
 		}
 		return l
@@ -64,6 +69,15 @@ func init() {
 		class := "single"
 		if strings.ContainsRune(string(a)+string(b), '\n') {
 			class = "multiline"
+		}
+		// a quarter of the multi-line cases show the column marks of the multi-line editor, which the model of
+		// the redisplay does not have: only the two oracles on the real code decide these (the protocol line is
+		// one the driver answers "bad-op" to, like the real side below)
+		column := multi && r.Intn(4) == 0
+		if column {
+			sp.Inputrc = []string{"set multiline-column on\n", "set multiline-column-numbered on\n", "set multiline-column-custom \"|\"\n"}[r.Intn(3)]
+			line = "refresh2column " + line[len("refresh2 "):]
+			class += "+column"
 		}
 		tr := sessRun(sp)
 		res := "?"
@@ -136,6 +150,9 @@ func init() {
 					}
 				}
 			}
+		}
+		if column && !strings.HasPrefix(res, "HANG") && !strings.HasPrefix(res, "ERR") && !strings.HasPrefix(res, "PANIC") && !strings.HasPrefix(res, "WAITS") {
+			res = "bad-op"
 		}
 		return line, res, class + "/" + strconv.Itoa(w)
 	}})
